@@ -86,16 +86,40 @@ ALIASES = ["value", "v", "result", "results", "res", "handler", "h", "joiner", "
 SALT = [0]      # rotates the alias names from one chain to the next (deterministic: chains are rendered in a fixed order)
 
 
-def tk(body, site=0):
-    if not TICKS[0]:
-        return body
+def alias_pair(site):
     try:
         si = int(site)
     except (TypeError, ValueError):
         si = sum(map(ord, str(site)))
     k = SALT[0] * 5 + 2 * si
-    a, b = ALIASES[k % len(ALIASES)], ALIASES[(k + 1) % len(ALIASES)]
+    return ALIASES[k % len(ALIASES)], ALIASES[(k + 1) % len(ALIASES)]
+
+
+def tk(body, site=0):
+    if not TICKS[0]:
+        return body
+    a, b = alias_pair(site)
     return f"{{ rt::sem::tick(&__cnt); rt::sem::touch(&{a}); rt::sem::touch(&{b}); {body} }}"
+
+
+FNMUT = set()      # sites of the chain being rendered that lie inside an open wrapper over an iterator
+
+
+def fnmut_sites(chain):
+    st = site_types(chain)
+    out, stack = set(), []
+    for i, it in enumerate(chain["items"], 1):
+        if it["deferred"]:
+            stack = []
+        if it["op"] == "unwrap":
+            if stack:
+                stack.pop()
+            continue
+        if any(stack):
+            out.add(i)
+        if it["mv"] == "wrap":
+            stack.append(is_it(st[i]["ty"]) or st[i]["ty"] == "rIt")
+    return out
 
 
 def shaped(params, body, ret, shape, site, fnitems, opidx=0):
@@ -108,7 +132,23 @@ def shaped(params, body, ret, shape, site, fnitems, opidx=0):
     if shape == "call":
         return f"rt::sem::ret({c})"
     if shape in ("block", "block2"):
-        return f"{{ rt::sem::cap({site}, {opidx}); {c} }}"
+        # the block's value is a `move` closure that owns a move-only token (a block capture need not be Clone) -- except
+        # inside a wrapper over an iterator, whose generated closure runs once per item and can only copy what it uses
+        if site in FNMUT:
+            pre = f"let _ = rt::sem::cap({site}, {opidx});"
+            inner = ""
+            if TICKS[0]:
+                a, b = alias_pair(site)
+                pre += f" let __c = &__cnt; let __a = &{a}; let __b = &{b};"
+                inner = "rt::sem::tick(__c); rt::sem::touch(__a); rt::sem::touch(__b); "
+            return f"{{ {pre} move |{params}| {{ {inner}{body} }} }}"
+        pre = f"let __m = rt::sem::cap({site}, {opidx});"
+        inner = "__m.keep(); "
+        if TICKS[0]:
+            a, b = alias_pair(site)
+            pre += f" let __c = &__cnt; let __a = &{a}; let __b = &{b};"
+            inner += "rt::sem::tick(__c); rt::sem::touch(__a); rt::sem::touch(__b); "
+        return f"{{ {pre} move |{params}| {{ {inner}{body} }} }}"
     if shape == "paren":
         return f"({c})"
     if shape == "rettype":
@@ -201,9 +241,9 @@ def hoist(text, site, lets):
     out = []
     i = 0
     k = 0
-    mark = "{ rt::sem::cap("
+    marks = ("{ rt::sem::cap(", "{ let __m = rt::sem::cap(", "{ let _ = rt::sem::cap(")
     while i < len(text):
-        if text.startswith(mark, i):
+        if any(text.startswith(mark, i) for mark in marks):
             depth = 0
             j = i
             while True:
@@ -448,6 +488,8 @@ def chain_fns(name, chain, variant="join"):
     mitems, titems = [], []
     STREAM[0] = variant in ("join_async", "join_async_spawn")
     TICKS[0] = variant in TICK_VARIANTS
+    FNMUT.clear()
+    FNMUT.update(fnmut_sites(chain))
     SALT[0] = sum(map(ord, name)) + len(chain["items"])
     cnt = ("    let __cnt = std::cell::Cell::new(0i64);\n" + "".join(f"    let {a} = std::cell::Cell::new(0i64);\n" for a in ALIASES)) if TICKS[0] else ""
     chk = "    rt::sem::same_ticks(&__cnt);\n" if variant in ("join", "try_join") else ""
